@@ -4,7 +4,7 @@ from common import *
 from sqlparse import lexer, tokens as T, keywords
 
 RULE = ('(a) every region kind x random bodies over the full character set (minus the terminator and, for quote kinds, backslash) x left/right contexts (blanks, line breaks, punctuation, words, operators): '
-        'exactly one token of the kind covers the region; (b) EXHAUSTIVE: every word of every keyword dictionary x {upper, lower, capitalized, random case} x delimited contexts lexes to one token '
+        'exactly one token of the kind covers the region; plus a SYSTEMATIC sweep: every region kind x ~60 edge bodies (every kind of line break, backslashes at both ends, openers/closers of the other kinds, `$`/other tags inside dollar bodies, `!`/`*`/`/` at comment edges, astral/NUL/surrogate) x every end-of-line kind for line comments; (b) EXHAUSTIVE: every word of every keyword dictionary x {upper, lower, capitalized, random case, non-ASCII spellings whose str.upper() is the word (ſ ı ﬁ ß …)} x delimited contexts (also after text containing characters whose upper-casing changes length); the dictionaries are ALL KEYWORDS* dictionaries of sqlparse.keywords (each must be consulted by the default lexer) lexes to one token '
         'of the type of the first dictionary listing it or of an earlier dedicated rule (as recorded by the real rule table); a word in no dictionary is a Name; non-trivial = distinct (kind/word, context)')
 ASSUMPTIONS = ['the Lean theorems are about one scan step at the opener (firstMatch); that the opener is reached at a scan boundary is sampled here through the left contexts']
 PARTIAL = ['region clause proved; keyword clause: 790 of 809 dictionary entries certified universally (any left context, any delimiter), in EVERY letter casing (dict_word_any_casing), the 19 others (words with dedicated rules) evaluated on a concrete context + exhaustive enumeration on the real lexer; the table obligations are index-free (rules are found by content: firstWith), so unrelated rule insertions do not disturb them']
@@ -113,14 +113,132 @@ def check_region(ctx, rng):
     return text
 
 
-def dict_type_table():
-    """expected type of each dictionary word according to the real rule table: first dedicated rule that matches the whole upper-case word alone, else first dictionary"""
+# --- systematic edge bodies -------------------------------------------------------------------------------------------------
+EDGE_BODIES = ['', 'x', ' ', '\n', '\r', '\r\n', 'a\nb', 'a\rb', '\\', 'a\\', '\\a', '\\\\', '!', '!50100 select 1', '*', 'a*', '**', '/', '/a', 'a/', '-', '--', '-- x', '#', '# x',
+               "'", "a'b", '"', 'a"b', '`', 'a`b', '\u00b4', '$', '$x', 'x$', '$x$', 'a $b$ c', '$$', 'x $$ y', '$1', 'cost $5', ';', 'a;b', 'select', 'end', '/*', '/* x', '+', ' +', 'x+',
+               '\x85', '\u2028', '\u2029', '\x0b', '\x0c', '\x1c', '\x00', '\ufeff', '\u00e9', '\u00df', '\U0001F600', '\ud800', '(', ')', '[', ']', '%s', ':=', '::', '\t', 'go', '@x']
+
+
+def edge_regions():
+    """(kind, lexeme, expected type, right-context restriction) for every kind x every edge body inside the kind's body language"""
+    for b in EDGE_BODIES:
+        if "'" not in b and '\\' not in b:
+            yield 'single-quoted', "'" + b + "'", T.String.Single, "'"
+            yield 'single-quoted', "'" + b + "''" + b + "'", T.String.Single, "'"
+        if '"' not in b and '\\' not in b:
+            yield 'double-quoted', '"' + b + '"', T.String.Symbol, '"'
+            yield 'double-quoted', '"' + b + '""' + b + '"', T.String.Symbol, '"'
+        if '`' not in b:
+            yield 'backtick', '`' + b + '`', T.Name, '`'
+            yield 'backtick', '`' + b + '``' + b + '`', T.Name, '`'
+        if '\u00b4' not in b:
+            yield 'acute', '\u00b4' + b + '\u00b4', T.Name, '\u00b4'
+        if '*/' not in b + '*':
+            if not b.startswith('+'):
+                yield 'block-comment', '/*' + b + '*/', T.Comment.Multiline, None
+            yield 'block-hint', '/*+' + b + '*/', T.Comment.Multiline.Hint, None
+        if '\n' not in b and '\r' not in b:
+            for eol in ('\n', '\r\n', '\r', ''):
+                for op in ('--', '# '):
+                    if not b.startswith('+'):
+                        yield 'line-comment', op + b + eol, T.Comment.Single, 'EOL' + eol
+                    yield 'line-hint', op + '+' + b + eol, T.Comment.Single.Hint, 'EOL' + eol
+        for tag in ('', 'a', 'Tag', '_x1', '\u00c0'):
+            delim = '$' + tag + '$'
+            # the body may contain `$` and other tags, as long as the delimiter itself (compared as the case-insensitive back-reference does)
+            # first recurs exactly at the end of the body
+            if (b + delim).lower().find(delim.lower()) == len(b):
+                yield 'dollar-quoted', delim + b + delim, T.Literal, '$'
+
+
+def check_edge_regions(ctx, rng):
+    texts = []
+    for kind, lexeme, ttype, restr in edge_regions():
+        for left, right in [('', ''), (' ', ' '), (rng.choice(LEFT), rng.choice(RIGHT)), (rng.choice(LEFT), rng.choice(RIGHT))]:
+            if restr and restr.startswith('EOL'):
+                eol = restr[3:]
+                if eol == '':
+                    right = ''                      # the comment ends with the text
+                elif eol == '\r' and right.startswith('\n'):
+                    right = ' ' + right              # a lone CR: what follows must not complete CR LF
+            elif restr and right.startswith(restr):
+                right = ' ' + right
+            if kind == 'dollar-quoted' and (left[-1:].isalnum() or left[-1:] in '_"$'):
+                left += ' '
+            if kind.startswith('line') and left.endswith('-'):
+                left += ' '
+            texts.append(check_one_region(ctx, kind, lexeme, ttype, left, right, 'edge:'))
+    return texts
+
+
+def check_one_region(ctx, kind, lexeme, ttype, left, right, tag=''):
+    text = left + lexeme + right
+    try:
+        toks = list(lexer.tokenize(text))
+    except Exception as e:
+        ctx.fail('tokenize raised ' + type(e).__name__, text, observed=repr(e), required='tokens')
+        return text
+    ctx.evaluations += 1
+    ctx.count('region:' + tag + kind)
+    ctx.nontrivial.add((kind, text))
+    pos = 0
+    found = None
+    for tt, v in toks:
+        if pos == len(left):
+            found = (tt, v)
+            break
+        if pos > len(left):
+            break
+        pos += len(v)
+    if found is None:
+        ctx.count('region-skipped-not-at-boundary')
+        return text
+    if found[0] is not ttype or found[1] != lexeme:
+        ctx.fail('an opaque region is not exactly one token of its kind', text, observed=[ttname(found[0]), found[1][:60]], required=[ttname(ttype), lexeme[:60]], kind=kind)
+    return text
+
+
+def module_dicts():
+    """every KEYWORDS* dictionary defined in sqlparse.keywords, in source order"""
+    import inspect
+    src = inspect.getsource(keywords)
+    names = [n for n in vars(keywords) if n.startswith('KEYWORDS') and isinstance(getattr(keywords, n), dict)]
+    names.sort(key=lambda n: src.find('\n' + n + ' ='))
+    return [(n, getattr(keywords, n)) for n in names]
+
+
+def dict_type_table(ctx=None):
+    """expected type of each dictionary word: the first dictionary, in the default lexer's registration order, that lists it; a dictionary of
+    sqlparse.keywords that the default lexer does not consult at all is a violation of the keyword clause (its words are then demanded with
+    the type it gives them)"""
     lx = lexer.Lexer.get_default_instance()
     table = {}
     for d in lx._keywords:
         for w, tt in d.items():
             table.setdefault(w, tt)
+    for name, d in module_dicts():
+        if not any(d is r or d == r for r in lx._keywords):
+            for w, tt in d.items():
+                if w not in table:
+                    table[w] = tt
+            if ctx is not None:
+                ctx.count('kw:dictionary-not-registered:' + name)
     return table
+
+
+NONASCII_SPELLINGS = [('S', '\u017f'), ('I', '\u0131'), ('FI', '\ufb01'), ('FL', '\ufb02'), ('FF', '\ufb00'), ('SS', '\u00df'), ('ST', '\ufb06')]
+
+
+def nonascii_casings(w):
+    """spellings with a non-ASCII letter whose str.upper() is the word again (what `value.upper()` in is_keyword maps onto the dictionary key)"""
+    out = []
+    for a, b in NONASCII_SPELLINGS:
+        i = w.find(a)
+        if i >= 0:
+            v = w[:i].lower() + b + w[i + len(a):].lower()
+            if v.upper() == w:
+                out.append(v)
+    return out[:2]
 
 
 def expected_word_type(lx, table, text, pos, word):
@@ -139,14 +257,17 @@ def expected_word_type(lx, table, text, pos, word):
 
 def check_keywords(ctx, rng):
     lx = lexer.Lexer.get_default_instance()
-    table = dict_type_table()
-    ctxs = [('', ''), (' ', ' '), ('(', ')'), (', ', ';'), ('\n', '\n'), ('x ', ' y'), ('1,', ',2')]
+    table = dict_type_table(ctx)
+    # the last three left contexts contain characters whose str.upper() is longer than the character (an implementation that upper-cases
+    # more than the word itself gets its offsets wrong after them)
+    ctxs = [('', ''), (' ', ' '), ('(', ')'), (', ', ';'), ('\n', '\n'), ('x ', ' y'), ('1,', ',2'),
+            ("'stra\u00dfe' ", ' '), ('/* \u0149 \ufb01 */ ', ';'), ('"\u01f0\u0390" , ', ')')]
     texts = []
     for w, dtt in table.items():
         if len(list(lexer.tokenize(w))) != 1:
             ctx.fail('a dictionary word does not lex as one token', w, observed=[(ttname(t), v) for t, v in lexer.tokenize(w)], required='one token')
             continue
-        for casing in (w, w.lower(), w.capitalize(), ''.join(ch.upper() if rng.random() < 0.5 else ch.lower() for ch in w)):
+        for casing in [w, w.lower(), w.capitalize(), ''.join(ch.upper() if rng.random() < 0.5 else ch.lower() for ch in w)] + nonascii_casings(w):
             for l, r in ctxs:
                 text = l + casing + r
                 want, wval = expected_word_type(lx, table, text, len(l), casing)
@@ -184,6 +305,7 @@ def check_keywords(ctx, rng):
 def run(ctx):
     rng = ctx.rng
     texts = [check_region(ctx, rng) for _ in range(ctx.n(4000, 80000))]
+    texts += check_edge_regions(ctx, rng)
     kwtexts = check_keywords(ctx, rng)
     ctx.samples += [short(t, 60) for t in texts[:4]]
     if ctx.model.available:
